@@ -252,7 +252,7 @@ def run_case(ctx, g, rng):
 
 def large_case(ctx, g, rng):
     api, S = ctx.api, probe.S
-    n = rng.randint(100, 400) if rng.random() < 0.8 or ctx.tier != "thorough" else rng.choice([1100, 2500])
+    n = rng.randint(100, 400) if rng.random() < 0.97 or ctx.tier != "thorough" else rng.choice([1100, 2500])
     recs = []
     for i in range(n):
         base = f"http://x/{i % 37}/"
